@@ -224,6 +224,9 @@ func LockOrder(rng *wh.Rng, thorough bool) []Scenario {
 		out = append(out, Scenario{Handlers: hs, Seed: rng.Next(), Conf: n == 2, WaitMs: 8000, Tag: fmt.Sprintf("lockorder/run/%d", n),
 			Prog: append(append(prog(), adds...), "run", "wev:sub", "close:3", "nap:40", "subgo", "wclose", "wrr")})
 	}
+	// a RunHandlers call for one new handler is held right after it took handlersLock (at its log line) while Close arrives
+	out = append(out, Scenario{Handlers: []HandlerSpec{{}, {}}, Seed: rng.Next(), Conf: true, WaitMs: 8000, Tag: "lockorder/logline",
+		Prog: prog("add:0", "run", "wrun", "add:1", "park:kl", "rhbg", "wpark", "close:2", "nap:40", "rel", "wclose", "wrh", "wrr")})
 	hs := []HandlerSpec{{}, {SubGate: true}, {SubGate: true}}
 	out = append(out, Scenario{Handlers: hs, Seed: rng.Next(), Conf: false, WaitMs: 8000, Tag: "lockorder/runhandlers",
 		Prog: prog("add:0", "run", "wrun", "add:1", "add:2", "rhbg", "wev:sub:2", "close:2", "nap:40", "subgo", "wclose", "wrh", "wrr")})
